@@ -8,8 +8,8 @@ Case syntax (one line; parsers: harness/src/engines/threads.rs `parse_case`, lea
          fill=<table>:<n>:<pad>             n more initial rows (1000+i, i, 'x'*pad), i = 1..n; the table must be (big, int, text)
          cache=<pages> pool=<workers> pace=<seed of the pacing (spins / yields / sleeps before every call)>
          yield=<tag>:<permille>:<max_us>    delay of 1..max_us microseconds on <permille> of 1000 hits of the yield point <tag> inside the
-                                            database (axmosdb::verif::sched: snapshot_taken | commit_logged | committed | page_fetched |
-                                            tree_write | leaf_released); which hits, and how long, is a function of pace seed, tag, hit number
+                                            database (axmosdb::verif::sched: begin_snapshot | row_id_leased | snapshot_taken | commit_logged |
+                                            committed | page_fetched | tree_write | leaf_released); which hits, and how long, is a function of pace seed, tag, hit number
   op     begin | commit | rollback          the thread's own session (= one transaction at a time)
          <stmt>                             statement in the thread's open session          stmt as engine `hist`
          db <stmt>                          Database::execute (autocommit) issued by that thread
@@ -18,8 +18,9 @@ Case syntax (one line; parsers: harness/src/engines/threads.rs `parse_case`, lea
   What is executed is, per thread t<i>, the subsequence of its ops; the single op list only serves shrinking.
 
 Observation (one line):   <kind> <call> <call> … | <table>=[rows] …
-  kind   run | interr | hang:<t<i>#<k>,…> | panic@<file:line>[,hang:…]      (interr: some call answered with a class that no
-         statement of the case may produce; hang: calls that had not returned 10 s after their 10 s bound; panic: first panic of any thread)
+  kind   run | interr | protocol:<tag> | hang:<t<i>#<k>,…> | panic@<file:line>[,hang:…]      (interr: some call answered with a class that no
+         statement of the case may produce; protocol: a section the code relies on being exclusive was entered without its lock, as reported by yield point <tag>;
+         hang: calls that had not returned 10 s after their 10 s bound; panic: first panic of any thread)
   call   t<i>:<t0>:<t1>:<out>    t0 / t1 = tickets of one global counter drawn right before the call was issued / right after
          it returned; out as engine `hist` (ok | ok<n> | [sorted rows] | conflict | constraint | … | nosession); pad texts 'x*<n>'
   final contents: read by the harness after all client threads have finished
@@ -45,7 +46,7 @@ PROP = {
                      "AxVerif.Driver.Threads"],
     "rule": "one case = 2-8 client threads on one fresh database (own Session transactions and/or autocommit Database::execute calls; "
             "inserts, deletes, selects; UPDATE and the other known-finding features of C04 are kept out), started behind a barrier, paced "
-            "from the case's seed, every call under a watchdog (10 s bound) inside a supervised child process. Clean shapes (each 1/14 of the clean "
+            "from the case's seed, every call under a watchdog (10 s bound) inside a supervised child process. Clean shapes (each 1/15 of the clean "
             "cases): 2 autocommit writers on own tables; 2-3 writers + readers of static tables; 3-5 session writers + session readers; the "
             "same over tables preloaded to several pages (cache 10000 or 32-64); readers scanning the very tables being written (one-page "
             "and multi-page); begin/commit stress (2 session writers x 6-8 transactions, 2 fast autocommit committers, 3-4 readers of the "
@@ -56,7 +57,8 @@ PROP = {
             "delays between page fetch and latch / between leaves / between the tree operations of a statement, a table with a UNIQUE index "
             "(point lookups and scans next to inserts, delays between table-tree, index-tree and catalog-tree update), first split of a "
             "one-page table under scans; and the statement-level family: 3-6 threads issuing autocommit statements on tables of their own "
-            "with delays at every yield point, judged additionally against each thread's statements run ALONE (`bad not-alone`). "
+            "with delays at every yield point, judged additionally against each thread's statements run ALONE (`bad not-alone`); the row-id lease race: one thread keeps failing "
+            "an INSERT on a UNIQUE key while others insert fresh keys into the same table, delays between the lease and the constraint check. "
             "Region shapes (4 % of quick, 8 % of thorough cases, spread among the clean ones): a thread calling "
             "Database::flush, statements that panic in a pool worker. All derived from VERIF_SEED (the schedules "
             "themselves are the OS's). Non-trivial = every case (>= 2 threads, >= 30 events); distinct = distinct case line.",
